@@ -411,9 +411,17 @@ def report(ctx: click.Context, tjp_file: Optional[str], output_csv: bool, output
             if output_path.exists() and not force:
                 raise ReportGenerationError(f"Output file already exists: {output_path}\nUse --force to overwrite.")
 
-            # Write to specified file
-            with open(output_path, "w", encoding="utf-8") as f:
-                f.write(report_content)
+            # Write to specified file: completely or not at all (a failed write must not leave a
+            # truncated report, nor clobber the file that was there)
+            part_fd, part_name = tempfile.mkstemp(prefix=f".{output_path.name}.", suffix=".part", dir=str(output_path.parent or "."))
+            try:
+                with os.fdopen(part_fd, "w", encoding="utf-8") as f:
+                    f.write(report_content)
+                os.replace(part_name, output_path)
+            except BaseException:
+                with contextlib.suppress(OSError):
+                    os.unlink(part_name)
+                raise
 
             if not quiet:
                 click.echo(f"Generated: {output_path}", err=True)
